@@ -192,10 +192,13 @@ PROPS["C08"] = dict(
 PROPS["C07"] = dict(
     title="Nothing bound to a fabric outlives that fabric (safety half, roll-back path)",
     scope="FailSafe::expire reporting a removed fabric leaves no live session of that fabric (CASE, PASE or group) over an abstract session table; "
-          "ResumableSessions::find_by_peer never yields a record of another fabric or node.",
+          "ResumableSessions::find_by_peer never yields a record of another fabric or node; the session kept (expired) to carry the response opens no new "
+          "exchange (Session::post_recv) and is never picked for outbound traffic (Sessions::get_for_node).",
     verus=[],
     functions=[],
-    trusted=["Sessions::remove_for_fabric / remove_pase, ResumableSessions::remove_for_fabric, Fabrics index allocation: by contract only (real bodies did not close in CBMC)"],
+    trusted=["Sessions::remove_for_fabric, ResumableSessions::remove_for_fabric, Fabrics index allocation: by contract only - ASSUMED: the real body of "
+             "remove_for_fabric did not close in CBMC (48 GB with symbolic sessions, 14 GB with a lean table of 2), so a change inside it is not detected "
+             "(seeded change C07-m1 is missed for this reason); remove_pase: real body checked on a table of 1 (C20)"],
     out_of_reach=["subscriptions, group keys, ACLs living inside Fabric (dropped with it by construction)", "peer traffic racing the removal; the reporter's 'fabric removed' predicate (async)"],
     assumptions=[],
 )
